@@ -1,6 +1,7 @@
 package rules
 
 import (
+	"go/types"
 	"strings"
 
 	"mcvet/engine"
@@ -30,6 +31,7 @@ func checkC03(r *Report, p *Program) {
 	adoptAlwaysWrites(r, p, "R03.8")
 	// objects listed for a declared child type come from an informer of exactly that resource and version
 	keyCompleteness(r, p, "R03.9", "informer.resourceKey")
+	cachesSyncedBeforeWorkers(r, p, "R03.10")
 }
 
 func r03_1(r *Report, p *Program) {
@@ -375,5 +377,97 @@ func r03_6(r *Report, p *Program) {
 			}
 			r.Check(rule, FK(f), p.Pos(f.Pos()), ok, m+" stores its argument in ."+fld, m+" does not store its argument in ."+fld)
 		}
+	}
+}
+
+// cachesSyncedBeforeWorkers (C03 R03.10, C14): what a sync observes is what the
+// informer caches hold, so no worker may run before EVERY informer the controller
+// reads has delivered its initial list: a cache that is still empty makes owned
+// children look absent (the hook is told there are none and ManageChildren
+// re-creates them). In each controller's Start the workers are reachable only
+// across a successful WaitForNamedCacheSync whose HasSynced list is fed from each
+// informer-holding field of the controller.
+func cachesSyncedBeforeWorkers(r *Report, p *Program, rule string) {
+	r.Rule(rule, "Start: workers run only after WaitForNamedCacheSync over the HasSynced of every informer field of the controller (parent and child/attachment informers)")
+	r.Floor(rule, 2)
+	for _, key := range []string{"controller/composite.parentController", "controller/decorator.decoratorController"} {
+		start := fn(r, p, rule, key+".Start")
+		if start == nil {
+			continue
+		}
+		fns := append([]*ssa.Function{start}, engine.Closures(start)...)
+		var wait *engine.CallSite
+		var workers []engine.CallSite
+		for _, f := range fns {
+			for _, cs := range callsTo(f, false, "cache.WaitForNamedCacheSync") {
+				cs := cs
+				wait = &cs
+			}
+			workers = append(workers, callsTo(f, false, "wait.Until")...)
+		}
+		if wait == nil || len(workers) == 0 {
+			r.Check(rule, key+".Start[synced≺workers]", p.Pos(start.Pos()), false, "", "WaitForNamedCacheSync or the worker start (wait.Until) not found in Start")
+			continue
+		}
+		ok, why := true, ""
+		// (a) workers only across the positive outcome of the wait
+		for _, w := range workers {
+			wf := w.Fn
+			// the worker goroutine is a closure created in the function that waited, or that function itself
+			target := w.Instr.(ssa.Instruction)
+			if wf != wait.Fn {
+				// find the MakeClosure / go statement in wait.Fn that starts wf (or its parent chain)
+				g := wf
+				for g != nil && g.Parent() != wait.Fn {
+					g = g.Parent()
+				}
+				target = nil
+				if g != nil {
+					for _, b := range wait.Fn.Blocks {
+						for _, in := range b.Instrs {
+							if mc, isMC := in.(*ssa.MakeClosure); isMC && mc.Fn == ssa.Value(g) {
+								target = in
+							}
+						}
+					}
+				}
+			}
+			if target == nil {
+				ok, why = false, "cannot relate the worker start to the function that waits for the caches"
+				continue
+			}
+			if wq := unguarded(wait.Fn, nil, target, func(l Lit) bool { return l.Pos && engine.SameValue(l.Cond, wait.Instr.Value()) }); wq != nil {
+				ok, why = false, "a worker can start without a successful WaitForNamedCacheSync; "+pathWhy(wq)
+			}
+		}
+		// (b) every informer field of the controller feeds the HasSynced list
+		recvT := deref(start.Params[0].Type())
+		st, _ := recvT.Underlying().(*types.Struct)
+		var need []string
+		if st != nil {
+			for i := 0; i < st.NumFields(); i++ {
+				ts := st.Field(i).Type().String()
+				if strings.HasSuffix(ts, "controller/common.InformerMap") || strings.HasSuffix(ts, "dynamic/informer.ResourceInformer") {
+					need = append(need, st.Field(i).Name())
+				}
+			}
+		}
+		if len(need) < 2 {
+			ok, why = false, sf("expected at least two informer-holding fields on %s, found %v", key, need)
+		}
+		args := wait.Common().Args
+		list := args[len(args)-1]
+		for _, fld := range need {
+			fed := engine.BackSlice(list, func(x ssa.Value) bool {
+				fa, isFA := x.(*ssa.FieldAddr)
+				return isFA && fieldNameOf(deref(fa.X.Type()), fa.Field) == fld
+			}, func(k string) bool {
+				return strings.HasSuffix(k, "ResourceInformer.Informer") || strings.HasSuffix(k, "HasSynced")
+			})
+			if !fed {
+				ok, why = false, "the HasSynced list given to WaitForNamedCacheSync is not fed from the controller's "+fld+": workers can start while that cache is still empty, and a sync then sees none of the objects it owns there"
+			}
+		}
+		r.Check(rule, key+".Start[synced≺workers]", p.InstrPos(wait.Instr), ok, sf("workers only after all of %v have synced", need), why)
 	}
 }
